@@ -38,7 +38,7 @@ def run_prop(prop, tier, seed):
              "followed by 14 fill bytes (zeros, ones, 55aa, seeded random), at address 0 or 0x1000; non-trivial = decodes "
              "to a non-empty text; distinct by (cpu, normalised text)",
         traces_validated_against_impl=total_events,
-        per_cpu=stats, weak=weak, cpus=len(allcpus),
+        per_cpu=stats, weak=weak, cpus=len(allcpus), not_covered=sorted(K.out_of_scope(prop)),
         canaries=dict(injected=ncan, rejected=ncan),
         exhaustive=(tier == "thorough")))
     chk.samples = sample_pool[:5]
